@@ -271,6 +271,20 @@ def gather_geometry(chk, mod, q, recv_name):
                 if isinstance(n, ast.Call) and isinstance(n.func, ast.Attribute) and n.func.attr in ("mpi_lengths", "mpi_starts") \
                         and src(n.func.value) == "layout_dest":
                     bad = f"the unpack loop uses `{src(n)}`: blocks were cut by the source layout's partition, not the destination's"
+        # a shortcut taken when THIS rank's block is unpadded: the other ranks' blocks may still be padded
+        for n in ast.walk(fn):
+            if isinstance(n, ast.If) and any(isinstance(x, ast.Compare) and "max_block_shape" in src(x) and ".shape" in src(x)
+                                             for x in ast.walk(n.test)) and any(c is x or True for x in [c]):
+                cmp_ = [x for x in ast.walk(n.test) if isinstance(x, ast.Compare) and "max_block_shape" in src(x)][0]
+                bad = (f"`{src(cmp_)}` compares this rank's own block length with the padded length to decide how the gathered buffer is "
+                       "read: on an uneven distribution the ranks holding a full-size block take the 'no padding' path although the shorter "
+                       "blocks of the other ranks arrive padded - the padding is read as data, and the ranks disagree on the result")
+        # explicit element counts with MPI.DOUBLE: the count is in doubles, complex data has two per element
+        for spec in list(c.args):
+            if isinstance(spec, (ast.List, ast.Tuple)) and len(spec.elts) == 3 and src(spec.elts[2]) == "MPI.DOUBLE":
+                bad = (f"`{src(spec)}` passes an explicit count with MPI.DOUBLE: the count is the number of array ELEMENTS, but a complex "
+                       "buffer holds two doubles per element, so only half of each block is exchanged (the two-element form lets mpi4py "
+                       "derive the count from the buffer's size in bytes)")
     chk.pat("G4-gather-geometry", c, f"gather arm of {q.split('.')[-1]}", ok, what, bad, file=rel, func=q)
 
 
